@@ -144,7 +144,9 @@ def _node(x):
 def replay(run: common.Run, case: dict, key: str = ""):
     problems = []
     rep = lambda k, c, d: problems.append((k, d))
-    if "text" in case:
+    if "package" in case:
+        package_pass(run, rep)
+    elif "text" in case:
         check_compile(run, case["text"], rep)
     elif "node" in case:
         check_program(run, _node(case["node"]), {k: (v[0], v[1]) for k, v in case["env"].items()}, rep)
@@ -160,6 +162,25 @@ def corpus_pass(run: common.Run, report, shard: Optional[Tuple[int, int]] = None
         check_compile(run, e, report)
         check_eval_src(run, e, {}, {"src": e}, report)
         run.event("corpus")
+
+
+def package_pass(run: common.Run, report) -> None:
+    """Environments with a package, including activations that bind the package name (or a prefix of it) to a primitive or a map."""
+    from celpy import celtypes as ct
+
+    bindsets = [{"p": ct.IntType(5)}, {"p": ct.StringType("s"), "x": ct.IntType(1)}, {"p": ct.MapType({ct.StringType("x"): ct.IntType(2)})}, {"p.q": ct.IntType(7)},
+                {"p": ct.MapType({ct.StringType("q"): ct.MapType({ct.StringType("x"): ct.IntType(3)})})}, {"p.x": ct.IntType(1), "x": ct.IntType(2)}, {"p": None}, {"p": ct.ListType([ct.IntType(1)])}, {}]
+    exprs = ["x", "p", "p.x", "q", "q.x", ".x", ".p", "x + 1", "[1].map(x, x)", "[1].map(p, p)", "has(p.x)", "p.q.x", "size(p)", "name"]
+    for package in ("p", "p.q", "jq"):
+        for bi, b in enumerate(bindsets):
+            for e in exprs:
+                run.tick()
+                run.nt(("pkg", package, bi, e))
+                run.event("package-activation")
+                for r in ("I", "C"):
+                    o, raw = cel.evaluate(e, b, r, package=package, want_value=True)
+                    if o[0] == "crash":
+                        report(f"{r}-{o[2]}-{progs.crash_bucket(raw)}-package-activation", {"src": e, "package": package, "bindset": bi, "route": r}, f"package={package} {e} with {list(b)}: {o}")
 
 
 def campaign(run: common.Run) -> None:
@@ -194,6 +215,7 @@ def main(run: common.Run) -> None:
         for k, d in replay(run, doc["case"], doc.get("key", "")):
             run.fail(k, doc["case"], d)
         run.event("replayed")
+    package_pass(run, run.fail)
     if run.tier == "quick":
         corpus_pass(run, run.fail, shard=(run.seed % 2, 2))  # half of the corpus per run (seed parity); thorough runs all of it
         campaign(run)
